@@ -118,6 +118,7 @@ class PoolWorld:
         self.pools = []
         self.cfg_size = []
         self.pname = {}
+        self.named_pools = set()  # pools given an explicit name
         self.simple_reqs = {}
         for p, spec in enumerate(scen["pools"]):
             size = size_of(spec.get("size", "inf"))
@@ -145,7 +146,9 @@ class PoolWorld:
                 pool = TaskPool(pool_size=size, **kw)
             self.pools.append(pool)
             self.cfg_size.append(size)
-            self.pname[str(pool)] = p
+            self.pname.setdefault(str(pool), p)
+            if spec.get("name") is not None:
+                self.named_pools.add(p)
         self.pool = self.pools[0]
         self.monitors = [f(self) for f in monitor_factories]
 
@@ -154,11 +157,22 @@ class PoolWorld:
         if not self.probing:
             self.viol.append((prop, key) + detail)
 
-    def cur_key(self):
+    def cur_key(self, tag=None):
         name = asyncio.current_task().get_name()
         try:
             pname, tid = name.rsplit("_Task-", 1)
-            return (self.pname[pname], int(tid)), name
+            # the pool a worker runs in is known from its request (two pools may legally carry the same name);
+            # the task name is only the fallback
+            p = None
+            if tag in self.reqs:
+                p = self.reqs[tag].p
+            else:
+                for sp, r in self.simple_reqs.items():
+                    if r.tag == tag:
+                        p = sp
+            if p is None or str(self.pools[p]) != pname:
+                p = self.pname[pname]
+            return (p, int(tid)), name
         except (ValueError, KeyError):
             self.bad_names.append(name)
             return (-1, len(self.bad_names)), name
@@ -182,7 +196,7 @@ class PoolWorld:
         w = self
 
         async def work(*args, **kwargs):
-            key, name = w.cur_key()
+            key, name = w.cur_key(tag)
             if key in w.started:
                 w.dup_keys.append(key)
             w.started[key] = (tag, args, kwargs)
@@ -753,6 +767,8 @@ class PoolWorld:
                 kw = {"name": spec["name"]} if spec.get("name") is not None else {}
                 np_ = TaskPool(pool_size=size_of(spec.get("size", "inf")), **kw)
                 self.pools.append(np_)
+                if spec.get("name") is not None:
+                    self.named_pools.add(len(self.pools) - 1)
                 self.cfg_size.append(size_of(spec.get("size", "inf")))
                 self.pname.setdefault(str(np_), len(self.pools) - 1)
                 return ("ok", str(np_))
